@@ -12,6 +12,10 @@ Correspondence:
 * `live`  BOTH backends over loopback sockets (stdlib ssl via asyncio, PyOpenSSL pump), real
           `start_server` for static files and `create_server` with the real protocol factories for
           handler bodies, socket buffers shrunk; the same response is fetched from both backends.
+* `sequence`  ONE process answers k requests one after the other (pump over memory BIOs, or the protocol on its transport):
+          pages of equal length built afresh per request and dropped afterwards (rendering handler, k static files of equal
+          size, one file rewritten in place, one scratch buffer), differing everywhere or in a single unit; each response is
+          compared with the page THAT request asked for (nothing of an earlier response may show in a later one).
 Direct oracle (from the property text): the client receives the header followed by exactly the
 body bytes the handler returned (UTF-8 for str), then a clean end of stream, nothing else; the same
 on both backends.
@@ -807,4 +811,284 @@ class Concurrent(Family):
         return f"{len(case['clients'])} clients: {'+'.join(sorted(c['reader'] for c in case['clients']))}" + (f" | handler reuses one {case['pool']}" if case.get("pool") else "")
 
 
-FAMILIES = [Pump(), Live(), Concurrent()]
+# ------------------------------------------------------------------------------------------------
+# family 4: one server process answers a SEQUENCE of requests, one after the other
+# ------------------------------------------------------------------------------------------------
+def page_body(case, p: int):
+    """Page `p` of a sequence case, built afresh on every call (a new object each time; nothing of it is kept by this module):
+    `n` units of the page's fill/seed, optionally with ONE unit replaced at the head, in the middle or at the tail (pages that
+    differ from a neighbour in a single position), optionally a unit longer or shorter (`dn`)."""
+    pg = case["pages"][p]
+    n = max(0, case["n"] + pg.get("dn", 0))
+    body = make_bytes(n, pg["fill"], pg["seed"]) if case["btype"] == "bytes" else make_str(n, pg["fill"], pg["seed"])
+    at = {"head": 0, "mid": n // 2, "tail": n - 1}.get(pg.get("edit"))
+    if at is not None and n:
+        if case["btype"] == "bytes":
+            body = body[:at] + (b"A" if body[at:at + 1] != b"A" else b"B") + body[at + 1:]
+        else:
+            body = body[:at] + ("A" if body[at] != "A" else "B") + body[at + 1:]
+    return body
+
+
+class Sequence(Family):
+    """The responses of ONE process, one connection after the other: k requests for pages of (mostly) equal length whose bodies
+    are produced afresh for every request and dropped once the response is out - by a handler that renders the page (str or
+    bytes, sync or async), by StaticFileHandler from k files of equal size, from one file that is rewritten in place between the
+    requests, or into the one scratch buffer a handler owns.  Whatever the server keeps from one response to the next (the
+    previous body's encoding, a buffer, an object's address that the allocator hands out again) must not show in the next one.
+    Through the real PyOpenSSL pump over memory BIOs (`pump`) or on the protocol's transport directly (`direct`: what the
+    stdlib backend, the identity transport of the model, is handed).  Oracle per request: the header the handler returned, then
+    exactly the bytes of the page THIS request asked for, then end of stream."""
+
+    name = "sequence"
+    quick_n = 96
+    thorough_n = 1600
+    model_from_obs = True
+
+    # (kind, btype, units, pages, rounds, how the pages differ); divided among the shards with self.share
+    SHAPES = [
+        ("handler", "str", 204800, 4, 2, "seed"), ("static", "str", 204800, 4, 2, "seed"), ("rewrite", "str", 100000, 3, 2, "seed"),
+        ("handler", "str", 65536, 3, 3, "tail"), ("handler", "bytes", 300000, 3, 2, "seed"), ("scratch", "bytes", 200000, 3, 2, "seed"),
+        ("handler", "str", MIB, 3, 2, "mid"), ("static", "str", 70000, 4, 2, "tail"), ("handler", "str", 5000, 4, 3, "seed"),
+        ("handler", "str", 300, 4, 3, "head"), ("static", "str", 16385, 3, 3, "mid"), ("handler", "str", 65537, 4, 2, "seed"),
+        ("rewrite", "str", 262145, 3, 2, "tail"), ("handler", "bytes", 65536, 4, 2, "tail"), ("static", "str", MIB + 1, 3, 2, "seed"),
+        ("handler", "str", 131072, 5, 2, "head"),
+    ]
+
+    def _case(self, rng: random.Random, kind: str, btype: str, n: int, npages: int, rounds: int, diff: str, shuffle: bool = False):
+        if btype == "bytes":
+            fills = ["rand", "counter", "crlf"]
+        elif kind in ("static", "rewrite"):
+            fills = ["ascii", "mixed"]          # valid UTF-8 without CR: read_text hands back the file's text unchanged
+        else:
+            fills = FILLS_S
+        if diff == "seed":
+            # every page its own seed ("counter" / "crlf" pages would all be the same page)
+            f0 = rng.choice([f for f in fills if f not in ("counter", "crlf")])
+            pages = [{"fill": f0, "seed": rng.randrange(1 << 30)} for _ in range(npages)]
+        else:
+            # pages 1.. are page 0 with ONE unit replaced, each at another place (first at `diff`); from the fifth page on a fresh seed too
+            f0, s0 = rng.choice(fills), rng.randrange(1 << 30)
+            places = [diff] + [e for e in ("head", "mid", "tail") if e != diff]
+            pages = [{"fill": f0, "seed": s0}]
+            for p in range(1, npages):
+                pages.append({"fill": f0 if p <= 3 or f0 not in ("counter", "crlf") else "rand", "seed": s0 if p <= 3 else rng.randrange(1 << 30), "edit": places[(p - 1) % 3]})
+        order = [p for _ in range(rounds) for p in range(npages)]
+        if shuffle:
+            order = [rng.randrange(npages) for _ in order]
+            if rng.random() < 0.3:
+                pages[rng.randrange(npages)]["dn"] = rng.choice([1, -1, 7])
+        via = rng.choice(["pump", "pump", "direct"])
+        return {"kind": kind, "btype": btype, "n": n, "pages": pages, "order": order, "status": 20 if kind != "handler" else rng.choice([20, 20, 20, 21, 29]),
+                "meta": rng.choice(METAS) if kind in ("handler", "scratch") else "gmi", "src": "sync" if kind == "scratch" else rng.choice(["sync", "sync", "async"]),
+                "via": via, "reader": rng.choice(["fast", "fast", "bursty", "slow"]) if n <= 300000 else rng.choice(["fast", "bursty"]),
+                "tlsmax": rng.choice([4, 4, 3]), "path": rng.choice([4, 5, 6, 13, 14]), "collect": rng.random() < 0.5,
+                "view": kind == "scratch" and rng.random() < 0.5}
+
+    def gen(self, rng: random.Random, n: int):
+        count = 0
+        for shape in self.share(self.SHAPES):
+            yield self._case(rng, *shape)
+            count += 1
+        while count < n:
+            kind = rng.choice(["handler", "handler", "handler", "static", "static", "rewrite", "scratch"])
+            btype = "bytes" if kind == "scratch" else "str" if kind != "handler" else rng.choice(["str", "str", "str", "bytes"])
+            r = rng.random()
+            units = rng.choice([65536, 65537, 65535, 16384, 16385, 131072, 204800, 262144]) if r < 0.35 else int(2 ** rng.uniform(16, 20.2)) if r < 0.8 else \
+                rng.choice([1, 2, 300, 5000, 40000])
+            yield self._case(rng, kind, btype, units, rng.choice([2, 3, 3, 4, 5]), rng.choice([2, 2, 3]), rng.choice(["seed", "seed", "seed", "head", "mid", "tail"]),
+                             shuffle=rng.random() < 0.4)
+            count += 1
+
+    # -- implementation ----------------------------------------------------------------------
+    def impl(self, case):
+        import gc
+
+        from nauyaca.protocol.response import GeminiResponse
+        from nauyaca.server.protocol import GeminiServerProtocol
+
+        kind = case["kind"]
+        # what every page is - the property's right-hand side - from the descriptions, before anything is served; only length and
+        # hash are kept (a page that stays alive here would keep its address away from the pages built later)
+        want = []
+        for p in range(len(case["pages"])):
+            b = page_body(case, p)
+            wb = b if isinstance(b, bytes) else b.encode("utf-8")
+            want.append({"units": len(b), "blen": len(wb), "bsha": hashlib.sha256(wb).hexdigest()})
+            del b, wb
+        returned: list = []       # per handler call: status, meta, units of the body (small values, never the body)
+        tmp = None
+        if kind in ("static", "rewrite"):
+            from nauyaca.server.handler import StaticFileHandler
+
+            tmp = tempfile.mkdtemp(prefix="nv-")
+            if kind == "static":
+                for p in range(len(case["pages"])):
+                    (Path(tmp) / f"p{p}.gmi").write_bytes(page_body(case, p).encode("utf-8"))
+            sh = StaticFileHandler(Path(tmp))
+
+            def name_of(p):
+                return f"p{p}.gmi" if kind == "static" else "page.gmi"
+
+            def render(req):
+                return sh.handle(req)
+        else:
+            scratch = bytearray(max(w["blen"] for w in want)) if kind == "scratch" else None
+
+            def name_of(p):
+                return f"p{p}"
+
+            def render(req):
+                p = int(req.path.strip("/")[1:])
+                body = page_body(case, p)
+                if scratch is not None and len(body):
+                    k = len(body)
+                    scratch[:k] = body        # rendered into the handler's one buffer; the response is what it holds on return
+                    body = memoryview(scratch)[:k] if case.get("view") or k != len(scratch) else scratch
+                return GeminiResponse(case["status"], case["meta"], body)
+
+        def note(r):
+            returned.append([getattr(r, "status", None), getattr(r, "meta", None), len(r.body) if getattr(r, "body", None) is not None else 0])
+            return r
+
+        if case["src"] == "async":
+            async def handler(req):
+                await asyncio.sleep(0)
+                return note(render(req))
+        else:
+            def handler(req):
+                return note(render(req))
+
+        async def direct(request: bytes) -> dict:
+            tcp = tls_peer.FakeTCP()
+            proto = GeminiServerProtocol(handler, None)
+            proto.connection_made(tcp)
+            proto.data_received(request)
+            for _ in range(40):
+                if tcp.closed:
+                    break
+                await asyncio.sleep(0)
+            sink = tls_peer._Sink()
+            writes = tcp.take()
+            for w in writes:
+                sink.add(w)
+            g = sink.result()
+            g.update({"eof": "clean" if tcp.closed else "none", "closed": tcp.closed, "close_calls": tcp.close_calls, "dropped": sum(len(x) for x in tcp.dropped),
+                      "tcp": [len(w) for w in writes]})
+            del writes
+            proto.connection_lost(None)
+            return g
+
+        ctx = pyo_ctx(case["path"]) if case["via"] == "pump" else None      # built outside the running loop
+
+        async def run():
+            outs = []
+            rng = random.Random(case["pages"][0]["seed"] ^ 0x5EED)
+            for i, p in enumerate(case["order"]):
+                if kind == "rewrite":
+                    (Path(tmp) / "page.gmi").write_bytes(page_body(case, p).encode("utf-8"))     # edited in place between two requests
+                request = f"gemini://localhost/{name_of(p)}\r\n".encode()
+                if case["via"] == "direct":
+                    g = await direct(request)
+                else:
+                    g = await tls_peer.pump_exchange(ctx, lambda: GeminiServerProtocol(handler, None), request, reader=case["reader"],
+                                                     rng=rng, tlsmax=case["tlsmax"], cuts=0, coalesce=False, settle=8)
+                    if g.get("error"):
+                        raise RuntimeError(f"harness: TLS handshake with the pump failed: {g}")
+                    if i < len(case["order"]) - 1:
+                        g.pop("records", None), g.pop("tcp", None)       # kept for the last one (compared with the model)
+                outs.append(g)
+                if case.get("collect"):
+                    gc.collect()
+            return outs
+
+        try:
+            got = asyncio.run(run())
+        finally:
+            if tmp:
+                shutil.rmtree(tmp, ignore_errors=True)
+        return {"got": got, "want": want, "returned": returned, "handler_calls": len(returned)}
+
+    # -- model: the last response of the sequence ----------------------------------------------
+    def model_obs(self, case, obs):
+        if obs["handler_calls"] != len(case["order"]) or not obs["returned"] or not isinstance(obs["returned"][-1][0], int):
+            return None
+        status, meta, units = obs["returned"][-1]
+        p = case["order"][-1]
+        big = units > SMALL
+        tok = resp_token(status, str(meta), None if big else page_body(case, p), big)
+        g = obs["got"][-1]
+        ovh, cn = ((g["ovh"][0] if g.get("ovh") else 0), g.get("cn", 0)) if case["via"] == "pump" else (0, 0)
+        mode = "min16384" if case["via"] == "pump" else "all"
+        return f"c06 {mode} {ovh} {cn} n {tok} {obs['want'][p]['blen']}" if big else f"c06 {mode} {ovh} {cn} r {tok}"
+
+    def expect(self, case, out):
+        return parse_model(out)
+
+    def same(self, expected, obs):
+        if "model" in expected:
+            return False
+        g = obs["got"][-1]
+        ok = (expected["header"] == g["header"] and expected["blen"] == g["blen"] and (expected["bsha"] is None or expected["bsha"] == g["bsha"])
+              and g["closed"] is True and g["close_calls"] == 1 and g["dropped"] == 0 and g["eof"] == "clean")
+        if ok and "records" in g:
+            ok = expected["records"] == g["records"] and expected["tcp"] == g["tcp"] and len(g["ovh"]) <= 1
+        return ok
+
+    # -- direct oracle -----------------------------------------------------------------------
+    def oracle(self, case, obs):
+        order, k = case["order"], len(case["order"])
+        if obs["handler_calls"] != k:
+            return ("sequence-handler-calls", f"the handler ran {obs['handler_calls']} times for {k} requests, one after the other")
+        how = {"handler": f"a {case['btype']} body the {case['src']} handler builds afresh for every request", "static": "a file served by StaticFileHandler",
+               "rewrite": "one file, rewritten in place before every request, served by StaticFileHandler",
+               "scratch": "rendered into the one bytearray the handler owns and returned as " + ("a view of it" if case.get("view") else "that buffer")}[case["kind"]]
+        for i, (p, g, ret) in enumerate(zip(order, obs["got"], obs["returned"])):
+            w = obs["want"][p]
+            who = f"request {i + 1} of {k} to one server, one connection after the other, asked for page {p} ({w['units']} units = {w['blen']} bytes)"
+            ctx = (f" [{how}; through the {'PyOpenSSL pump' if case['via'] == 'pump' else 'protocol on its transport'}; "
+                   f"pages of the sequence: {[x['units'] for x in obs['want']]} units, requested in the order {order}]")
+            if case["kind"] in ("static", "rewrite") and ret[0] != 20:
+                return ("sequence-static-not-served", f"{who}: the handler answered {ret[0]} {str(ret[1])[:60]!r} for a regular UTF-8 file below the default size limit{ctx}")
+            v = judge("sequence", g, f"{ret[0]} {ret[1]}\r\n".encode("utf-8"), w["blen"], w["bsha"])
+            if v:
+                twin = [j for j in range(i) if order[j] != p and (obs["want"][order[j]]["blen"], obs["want"][order[j]]["bsha"]) == (g.get("blen"), g.get("bsha"))]
+                same_as = f"; what arrived is byte for byte the body of page {order[twin[-1]]}, served by request {twin[-1] + 1} of this sequence" if twin else ""
+                # one signature for "the body of an earlier response arrived", whatever its length is relative to the right one
+                return ("sequence-earlier-body-delivered" if twin else v[0], f"{who}: {v[1]}{same_as}{ctx}")
+        return None
+
+    def key(self, case, obs):
+        n = case["n"]
+        cls = "<16K" if n < 16384 else "<64K" if n < 65536 else "64K..256K" if n <= 262144 else ">256K"
+        edits = sorted({pg.get("edit", "seed") for pg in case["pages"][1:]}) or ["-"]
+        return f"{case['kind']} {case['btype']} | {cls} | {case['via']} | pages differ: {'+'.join(edits)}"
+
+    def shrink(self, case, bad):
+        """fewer requests: the shortest prefix of the sequence that still fails, then without its leading requests (at most 14 runs)"""
+        budget = [14]
+
+        def still(c):
+            if budget[0] <= 0:
+                return False
+            budget[0] -= 1
+            try:
+                return bad(c)
+            except Exception:  # noqa: BLE001
+                return False
+
+        cur = case
+        for j in range(2, len(case["order"])):
+            cand = dict(case, order=case["order"][:j])
+            if still(cand):
+                cur = cand
+                break
+        while len(cur["order"]) > 2:
+            cand = dict(cur, order=cur["order"][1:])
+            if not still(cand):
+                break
+            cur = cand
+        return cur
+
+
+FAMILIES = [Pump(), Live(), Concurrent(), Sequence()]
